@@ -103,8 +103,18 @@ CHECKS = {
             {"pkg": "Havoc/pkg/profile/yaotl/hclsyntax", "entries": ["H_c17_mutate"], "shards": 8, "shards_thorough": 24, "flags": ["-tags", "nohint", "-init", "Havoc/pkg/profile/yaotl,golang.org/x/text/unicode/norm,github.com/zclconf/go-cty/...,math/big,github.com/agext/levenshtein"]},
             {"pkg": "Havoc/pkg/profile/yaotl/hclsyntax", "entries": ["H_c17_parse"], "shards": 16, "flags": ["-init", "Havoc/pkg/profile/yaotl,golang.org/x/text/unicode/norm,github.com/zclconf/go-cty/...,math/big,github.com/agext/levenshtein"]},
         ],
-        "bounds": "JSON scanner: every byte string of length 0..3; string-literal sub-lexer (scanStringLit, quoted and unquoted): every byte string of length 0..4; grapheme segmentation by contract.",
-        "outside": "the native-syntax lexer scan_tokens.go (5k lines of generated tables) and the parsers above it, templates, traversals, JSON parser above the scanner, evaluation of error-free inputs: not encodable within reach (DESIGN.md C17)",
+        "bounds": "JSON scanner: every byte string of length 0..3; string-literal sub-lexer (scanStringLit, quoted and unquoted): every byte string of length 0..4; native-syntax scanner (the Ragel machine of scan_tokens.go, modes normal/template/ident-only): every byte string of length 0..2 (thorough: 0..3): token order, coverage, bytes, end-of-file token, positions; the four parser entry points ParseConfig/ParseExpression/ParseTemplate/ParseTraversalAbs: every byte string of length 0..2 (thorough: 0..3): no panic, termination, node and diagnostic ranges inside the input, children inside parents, error-free inputs evaluate (nil context) without panicking; single-fault mutations: every byte value at every position of 2 (thorough: 6) well-formed sources of 40..60 bytes covering blocks, labels, nested blocks, lists, objects, templates with interpolation/if/for directives, heredocs (LF and CRLF), for-expressions, function calls with expansion, conditionals, splats, indexing, operators - scanner and ParseConfig with the same obligations; grapheme segmentation by contract.",
+        "outside": "inputs longer than the bounds other than single-byte mutations of the listed sources; the JSON parser above its scanner; gohcl decoding of error-free input (reflection); did-you-mean hints in diagnostic text (stubbed: edit distance over symbolic names forks per character pair); grapheme cluster segmentation (contract stub: some prefix of 1..n bytes); number literals whose digits are symbolic reach math/big float formatting (paths abandoned and counted)",
+        "min_completed": 3,
+    },
+    "C20": {
+        "groups": [
+            {"pkg": "Havoc/pkg/profile/yaotl/hclwrite", "with": ["Havoc/pkg/profile/yaotl/hclsyntax"], "entries": ["H_c20_short"], "shards": 4, "flags": ["-tags", "nohint", "-init", "Havoc/pkg/profile/yaotl,golang.org/x/text/unicode/norm,github.com/zclconf/go-cty/...,math/big,github.com/agext/levenshtein"]},
+            {"pkg": "Havoc/pkg/profile/yaotl/hclwrite", "with": ["Havoc/pkg/profile/yaotl/hclsyntax"], "entries": ["H_c20_edit"], "shards": 6, "flags": ["-tags", "nohint", "-init", "Havoc/pkg/profile/yaotl,golang.org/x/text/unicode/norm,github.com/zclconf/go-cty/...,math/big,github.com/agext/levenshtein"]},
+            {"pkg": "Havoc/pkg/profile/yaotl/hclwrite", "with": ["Havoc/pkg/profile/yaotl/hclsyntax"], "entries": ["H_c20_mutate"], "shards": 12, "flags": ["-tags", "nohint", "-init", "Havoc/pkg/profile/yaotl,golang.org/x/text/unicode/norm,github.com/zclconf/go-cty/...,math/big,github.com/agext/levenshtein"]},
+        ],
+        "bounds": "TODO",
+        "outside": "TODO",
         "min_completed": 3,
     },
     "C14": {
@@ -112,8 +122,8 @@ CHECKS = {
             {"pkg": "Havoc/pkg/profile/yaotl/hclsyntax", "entries": ["H_c14_strlit"], "shards": 3},
             {"pkg": "Havoc/pkg/profile/yaotl/hclsyntax", "entries": ["H_c14_profile_string"], "shards": 4, "flags": ["-init", "Havoc/pkg/profile/yaotl,golang.org/x/text/unicode/norm,github.com/zclconf/go-cty/...,math/big,github.com/agext/levenshtein"]},
         ],
-        "bounds": "string literal spelling kernel: values of 0..2 arbitrary bytes, each written raw (ASCII, where legal), as \\n \\r \\t \\\" \\\\, or as \\xHH in upper or lower case, through scanStringLit + ParseStringLiteralToken.",
-        "outside": "everything decoded through gohcl/cty/reflection: schema, required/unknown attributes, heredocs, numbers as strings, block labels, repeated blocks (DESIGN.md C14)",
+        "bounds": "string literal spelling kernel: values of 0..2 arbitrary bytes, each written raw (ASCII, where legal), as \\n \\r \\t \\\" \\\\, or as \\xHH in upper or lower case, through scanStringLit + ParseStringLiteralToken. End to end through the real scanner, parser and template evaluation (ParseConfig -> Body -> Attribute.Expr.Value / block labels): values of 0..2 (thorough 0..3) arbitrary 7-bit bytes in every accepted spelling, as a top-level attribute, as an attribute inside a labelled block after a comment and a blank line, between the escaped template markers $${ and %%{, and as a block label; a lone $ or % as last character.",
+        "outside": "everything decoded through gohcl/cty/reflection: schema, required/unknown attributes, numbers as strings, repeated blocks, wrong-kind values (DESIGN.md C14); heredoc spelling; non-ASCII values",
         "min_completed": 3,
     },
     "C11": {
@@ -206,12 +216,12 @@ LEVELS = {
             "note": "net.Conn is a scripted in-memory connection (same code natively); goroutines are recorded, not run."},
     "C13": {"text": "Bounded symbolic execution of the real Builder.PatchConfig and ParseWorkingHours against a reference reader transcribed from Demon.c DemonConfig(); every enumerated option and symbolic digits/integers; a crossed assignment of one option shows as a field mismatch.",
             "note": "SMB transport only in this revision; UTF-16 encoder and regexp are stubs stated in the harness; no native replay (the stubs stand for x/text and regexp)."},
-    "C10": {"text": "Partial: bounded symbolic execution of the Go side of agent persistence (db.AgentAdd/AgentUpdate/AgentAll) with database/sql replaced by a recorder keyed by the column names parsed from the SQL text; shows that every field is written to and read from its own column for every 32-bit id.",
-            "note": "Crash consistency and SQLite typing are not covered (not encodable); base64 and database/sql are models inside gosx, real SQLite in the native replay."},
-    "C17": {"text": "Partial: bounded symbolic execution of the JSON scanner and of the generated string-literal sub-lexer over all byte strings up to the bound: totality (no panic, termination) and losslessness of tokens are decided for every input in the bound.",
-            "note": "The native lexer/parser and the JSON parser are outside; grapheme segmentation is a contract stub."},
-    "C14": {"text": "Partial: the value-dependent kernel of profile decoding - how a string literal's spelling maps to its value - is decided by symbolic execution of scanStringLit + ParseStringLiteralToken for every value/spelling in the bound.",
-            "note": "Schema-level decoding (gohcl/cty/reflect) is not encodable and not claimed."},
+    "C10": {"text": "Bounded symbolic execution of the real pkg/db code (AgentAdd/AgentUpdate/AgentAll, LinkAdd/LinkRemove/LinksOf/ParentOf/LinkExist, ListenerAdd/Remove/All/Exist/Count, and init()'s CREATE TABLE statements) over operation sequences and symbolic ids/text, with database/sql replaced by a relational model that executes the SQL text the code really sends under SQLite's affinity and UNIQUE rules; a restart is a new handle on the same tables; counterexamples and witnesses are replayed on real SQLite.",
+            "note": "Kill points inside a statement and journalling are outside (statements are atomic in the model); base64 is an injective model that distinguishes alphabets; listener configuration encoding (structs.Map/json) is outside."},
+    "C17": {"text": "Bounded symbolic execution of the real scanners and parsers: the JSON scanner, the string-literal sub-lexer, the Ragel-generated native-syntax scanner and the four hclsyntax entry points over every byte string up to the bound, plus every single-byte mutation of a set of well-formed sources; totality (no panic, loop bound), token losslessness, range containment and evaluation of error-free inputs are assertions decided by the solver for every input in the bound.",
+            "note": "Grapheme segmentation is a contract stub; did-you-mean hints are stubbed; the JSON parser above its scanner and gohcl decoding are outside."},
+    "C14": {"text": "Partial: how a string's spelling maps to the loaded value is decided by symbolic execution of the real scanner, parser and template evaluation end to end (ParseConfig -> attribute value / block label) and of the scanStringLit + ParseStringLiteralToken kernel, for every value/spelling in the bound.",
+            "note": "Schema-level decoding (gohcl/cty/reflect: required/unknown attributes, repeated blocks, wrong kinds, numbers as strings) is not encodable and not claimed."},
     "C11": {"text": "Bounded symbolic execution of the real event log / replay / fan-out / SendEvent code with the websocket write as a fault-injecting recorder; the fault sequence is a symbolic variable, and a mutex left held after any send is reported by the engine's lock model.",
             "note": "websocket, JSON encoder and DB are stubs; single-threaded (interleavings of concurrent broadcasters are outside)."},
     "C06": {"text": "Bounded symbolic execution of the real handleRequest/ClientAuthenticate/EventBroadcast decision logic over an arbitrary first Package (the image of json.Unmarshal), with SHA3 as an injective digest.",
